@@ -1,3 +1,5 @@
+import ProductMD.Model.IniParse
+import ProductMD.Model.TreeInfoText
 import ProductMD.Proofs.C05Images
 import ProductMD.Proofs.C05Rpms
 import ProductMD.Proofs.C05CI
@@ -397,7 +399,7 @@ def iniSec (n : String) (kv : List (String × String)) : Str × IniSec := (n.toL
 def tiUpgradeCycle (d : Ini) : Except Err (TreeInfo × Ini × TreeInfo × Ini) := do
   let t ← TI.Legacy.deserialize intOracle d
   let d1 ← TI.serialize t none
-  let d1' ← IniText.parse (IniText.render d1)
+  let d1' ← IniParse.parse Str.isPySpace (IniText.render d1)
   let t2 ← TI.Legacy.deserialize intOracle d1'
   let d2 ← TI.serialize t2 none
   pure (t, d1, t2, d2)
